@@ -10,10 +10,10 @@ package main
 // an expression none of the lemmas (nor the interval engine) proves is reported undecided.
 
 import (
-	"strings"
 	"fmt"
 	"go/token"
 	"go/types"
+	"strings"
 
 	"golang.org/x/tools/go/ssa"
 )
@@ -645,10 +645,12 @@ func symCounter(v ssa.Value, env *IntEnv, b *ssa.BasicBlock) (init int64, step s
 }
 
 // provesLEPoly: E + extra <= len(s) by comparing polynomial normal forms against upper-bound facts U <= len(s):
-//   len(s) itself (when s = x[lo:hi] or make(n): its length is a known form);
-//   g < len(s), g <= len(s)                      (dominating guards)        U = g+1, g
-//   g < len(s)/K, K >= 1                         (lemma B)                  U = (g+1)*K
-//   j < len(s), len(s) % K == 0, j = 0,K,2K,...  (lemma A)                  U = j+K
+//
+//	len(s) itself (when s = x[lo:hi] or make(n): its length is a known form);
+//	g < len(s), g <= len(s)                      (dominating guards)        U = g+1, g
+//	g < len(s)/K, K >= 1                         (lemma B)                  U = (g+1)*K
+//	j < len(s), len(s) % K == 0, j = 0,K,2K,...  (lemma A)                  U = j+K
+//
 // The goal holds when U - E - extra is evidently >= 0 for some U.
 func provesLEPoly(env *IntEnv, E ssa.Value, extra int64, s ssa.Value, b *ssa.BasicBlock) (string, bool) {
 	pe := polyAdd(polyOf(E, 0), polyConst(extra), 1)
